@@ -92,10 +92,8 @@ def call_sites(ctx, fg):
     fn = fg.node
     asg = assignments(fn)
 
-    def src(name):
-        d = asg.get(name, [])
-        return norm(d[-1][1]) if d and d[-1][1] is not None else name
-    want = ["mesh.get_quantity_on_site(current_density, use_cupy=use_cupy)", "self.areas", "self.sites",
+    from ..dataflow import expanded_text
+    want = ["self.device.mesh.get_quantity_on_site(current_density, use_cupy=self.use_cupy)", "self.areas", "self.sites",
             "self.edge_centers", "self.new_A_induced"]
     n = 0
     for c in own_nodes(fn):
@@ -109,7 +107,7 @@ def call_sites(ctx, fg):
         else:
             continue
         n += 1
-        got = [src(a.id) if isinstance(a, ast.Name) else norm(a) for a in args]
+        got = [expanded_text(fn, a) for a in args]
         ctx.ob("R13.3", f"{fname}{tuple(norm(a) for a in args)}", got == want, detail={"resolved": got, "expected": want},
                where=fg.fq, construct=f"{fname} arguments", loc=loc(fg, c),
                message=f"{fname} is called with {got}", consequence="areas/sites/edge centres are swapped: the kernel sums the wrong quantity")
